@@ -166,14 +166,14 @@ func c20Owners(tier string) []c20Owner {
 		mk("B20", seq(20, 0xA0)),
 		mk("C32", seq(32, 0x01)),
 	}
+	// bech32 also admits the all-upper-case spelling: same account (same
+	// signer) but a different owner STRING, hence a different port.
+	up := o[0]
+	up.Name = "A20-uppercase-spelling"
+	up.Str = strings.ToUpper(up.Str)
+	o = append(o, up)
 	if tier == "thorough" {
 		o = append(o, mk("D32", bytes.Repeat([]byte{0xFE}, 32)))
-		// bech32 also admits the all-upper-case spelling: same account (same
-		// signer) but a different owner STRING, hence a different port.
-		up := o[0]
-		up.Name = "A20-uppercase-spelling"
-		up.Str = strings.ToUpper(up.Str)
-		o = append(o, up)
 	}
 	return o
 }
